@@ -45,6 +45,9 @@ func (bc *boundCtx) isLenLB(v ssa.Value) bool {
 			return true
 		}
 	}
+	if tabledSameLen(bc.fn, bc.base, v) {
+		return true
+	}
 	if leBoundDepth == 0 {
 		if leBound(blockConds(bc.blk), v, func(w ssa.Value) bool { return lenValueOf(w, bc.base) }, 0) {
 			return true
@@ -843,4 +846,32 @@ func calleeResultLE(call *ssa.Call, idx int, isBound func(ssa.Value) bool, d int
 		}
 	}
 	return n > 0
+}
+
+// ---- tabled equal-length relations between parameters ----------------------------------
+
+// c11SameLenParams: functions two of whose slice parameters always have the
+// same length, by an invariant established outside the module. Keyed by
+// function; the relation is symmetric, so swapping the two parameters is harmless.
+type sameLenRel struct {
+	a, b int // indices into fn.Params (the receiver is 0)
+	why  string
+}
+
+var c11SameLenParams = map[string]sameLenRel{
+	"yqlib.csvObjectDecoder.createObject": {1, 2, "CSVRECT: encoding/csv rejects records whose field count differs from the first record (FieldsPerRecord is left 0, checked by P4c), and the header row is the first record"},
+}
+
+// tabledSameLen: v is len(p) for a parameter p of fn that the table relates to base.
+func tabledSameLen(fn *ssa.Function, base ssa.Value, v ssa.Value) bool {
+	rel, ok := c11SameLenParams[funcKey(fn)]
+	if !ok || rel.a >= len(fn.Params) || rel.b >= len(fn.Params) {
+		return false
+	}
+	pa, pb := ssa.Value(fn.Params[rel.a]), ssa.Value(fn.Params[rel.b])
+	x, isLen := lenOf(v)
+	if !isLen {
+		return false
+	}
+	return (sameLenBase(base, pa) && sameLenBase(x, pb)) || (sameLenBase(base, pb) && sameLenBase(x, pa))
 }
